@@ -57,6 +57,16 @@ def run_save(ctx, n, lead, trail, start, end, midnight, rng, nan_pixels=True):
             prods[p][r_, c] = np.nan
             nanpos.append((p, r_, c))
     line_numbers = np.arange(1, n + 1) + 2          # lines 1, 2 missing at the start
+    # numbering jitter below the sanitiser's threshold also occurs on the lines that are stripped: their RECORDED numbers
+    # join the missing list
+    if rng.random() < 0.5:
+        if lead:
+            line_numbers[rng.randrange(lead)] += rng.choice([5, 9, 40])
+        if trail:
+            line_numbers[n - 1 - rng.randrange(trail)] += rng.choice([2, 7])
+        if not lead and not trail and n > 4:
+            i = rng.randrange(1, n - 2)
+            line_numbers[i], line_numbers[i + 1] = line_numbers[i + 1], line_numbers[i]
     qual = np.zeros((n, 7))
     qual[:, 0] = line_numbers
     qual[:, 1:] = (np.arange(n)[:, None] + np.arange(6)[None, :]) % 2
@@ -158,7 +168,7 @@ def check_files(ctx, status, args, got, payload):
     # metadata
     miss = f["qualflags"]["/ancillary/missing_scanlines"][...].astype(np.int64).tolist()
     ln = got["line_numbers"]
-    want_miss = sorted(set([1, 2] + ln[:lead].tolist() + ln[n - trail:].tolist() if trail else [1, 2] + ln[:lead].tolist()))
+    want_miss = sorted(set([1, 2] + ln[:lead].tolist() + (ln[n - trail:].tolist() if trail else [])))
     if miss != want_miss:
         ctx.violation("missing-line list %s, expected %s" % (miss, want_miss), payload, cls="meta:missing")
     mid_attr = f["qualflags"]["/ancillary"].attrs["midnight_scanline"]
